@@ -396,7 +396,8 @@ impl ContextStatistics {
         }
         let last_read = self.last_read.load(Ordering::Relaxed);
         let now = SystemTime::now().unix_timestamp();
-        now - last_read > timeout.as_millis() as u64
+        // the wall clock can be set back: a stamp later than now is recent activity, not an overflow
+        now.saturating_sub(last_read) > timeout.as_millis() as u64
     }
 }
 
